@@ -419,6 +419,19 @@ func (q *PathQuery) Run() {
 		for _, d := range s.defers {
 			fmt.Fprintf(&dk, "%p,", d)
 		}
+		// constants merged in by the phis of the block just entered (a flag set on the back edge of a
+		// bounded retry loop) distinguish visits of the same block: they decide branches on them
+		if s.i == 0 {
+			for _, in := range s.b.Instrs {
+				ph, isPhi := in.(*ssa.Phi)
+				if !isPhi {
+					break
+				}
+				if c, isC := s.phiSel[ph].(*ssa.Const); isC && c.Value != nil {
+					fmt.Fprintf(&dk, "%s=%s,", ph.Name(), c.Value.ExactString())
+				}
+			}
+		}
 		vk := fmt.Sprintf("%d:%d:%d|%s|%s", s.b.Index, s.i, s.st, assignKey(s.assign), dk.String())
 		if visited[vk] {
 			continue
